@@ -558,6 +558,10 @@ def main():
         for trait, q, bl in impls:
             rows.append("  mkI %s \"%s\" [%s]" % (trait, q, "; ".join("(%d, %s)" % b for b in bl)))
         f.write(";\n".join(rows) + "\n].\n\n")
+        f.write("(* traits declared by the crate with their Send / Sync supertraits (what `dyn Trait` is) *)\n")
+        f.write("Definition dyn_traits : list (string * (bool * bool)) := [\n")
+        f.write(";\n".join("  (\"%s\", (%s, %s))" % (n, "true" if a else "false", "true" if b else "false") for n, (a, b) in sorted(ctx.dyn_traits.items())))
+        f.write("\n].\n\n")
         f.write("Definition trait_impls : list timpl := [\n")
         f.write(";\n".join("  mkT \"%s\" \"%s\" [%s]" % (t, q, "; ".join("(%d, %s)" % b for b in bl)) for t, q, bl in timpls))
         f.write("\n].\n")
@@ -571,7 +575,8 @@ def main():
             kinds.append("mutex" if "RawMutex" in bs or pn == "MutexType" else ("ringbuf" if "RingBuf" in bs else "plain"))
         info.append(dict(name=q, lifetimes=m["lifetimes"], params=params, kinds=kinds, public=is_pub, future=q in futures))
     json.dump(dict(types=info, impls=[dict(trait=t, target=q, bounds=bl) for t, q, bl in impls],
-                   trait_impls=[dict(trait=t, target=q, bounds=bl) for t, q, bl in timpls]),
+                   trait_impls=[dict(trait=t, target=q, bounds=bl) for t, q, bl in timpls],
+                   dyn_traits={n: dict(send=a, sync=b) for n, (a, b) in sorted(ctx.dyn_traits.items())}),
               open(os.path.splitext(out)[0] + ".json", "w"), indent=1)
     print("rs2coq_types: %d types, %d Send/Sync impls, %d futures/streams -> %s" % (len(structs), len(impls), len(futures), out))
 
